@@ -33,6 +33,16 @@ CHECKS = {
              "lal's own read-back against the specification.",
         note="Trusted: independent FLV/WebSocket reader harness/proj/flv.go; lengths/timestamps are boundary pools.",
         ref="6/C11"),
+    "C18": dict(
+        technique="TLA+ spec Amf0 (token-level encoder + lal's decoder as a depth-bounded machine; TLC enumerates value "
+                  "trees x cut points) + replay into lal's typed readers/writers/metadata helpers + TLC trace validation",
+        text="TLC enumerates value trees (all kinds, malformed counts/end markers, nesting to depth 3 in thorough) x every "
+             "cut point around token boundaries and checks RoundTrip on the model; each case is decoded by lal and the "
+             "(ok, consumed, value) triple is decided by TLC against the machine; lal-written values are tokenised and "
+             "compared with the spec encoder; deep nesting (to 5.5 M levels) runs in a child process under a 64 MiB stack.",
+        note="Trusted: independent AMF0 encoder/tokenizer harness/proj/amf.go; arbitrary bytes are covered as "
+             "well-typed token sequences with truncation, count/marker faults, not as every byte string.",
+        ref="6/C18"),
 }
 
 NOT_APPLICABLE = {}
